@@ -1,6 +1,8 @@
 /- every call keeps the in-block file invariant `BI` (depth > 0) -/
 import DC.Proofs.BlockInv
 import DC.Proofs.CheckObserve
+import DC.Proofs.RefineWrite
+import DC.Proofs.Queue
 
 namespace DC.Cache
 
@@ -474,5 +476,497 @@ theorem incr_grow {x : Cache} (hd : 0 < x.depth) (E : Externals) (now : Int) (k 
           have h1 := Q4.refl (s1.regCreated c.file)
           q4_auto
     · apply same; q4_auto
+
+/-! ### `add` and `push`: calls that store a value and then run one transaction with the file as `fresh` -/
+
+/-- the common part of `set`, `add`, `push` inside a block: after `store`, the transaction runs
+with the stored file registered; the body either attaches the file to a row (cleanup list
+`dropFile cl c.file`), or hands it to cleanup (list `cl`), or fails (list `c.file :: cl`) -/
+theorem fresh_transact_BI {x x1 : Cache} {E : Externals} {v : PyVal} {read : Bool} {c : Cols}
+    {cl : List (Option Nat)} (hd : 0 < x.depth) (hP : PI (fcore x) cl) (hS : Sub cl x)
+    (hst : x.store E v read = .ok (x1, c)) (B : Cache → Body) (hq : ∀ y, Q4 y (B y).s)
+    (hb : ∀ y, PI (fcore y) (c.file :: cl) →
+      (∀ g, c.file = some g → ∃ ct, (g, ct) ∈ y.files ∧ ct.size = c.size) →
+      ((B y).ok = true ∧ PI (fcore (B y).s) ((B y).cleanup ++ dropFile cl c.file) ∧
+        ∀ f, some f ∈ (B y).cleanup → f < y.nfile) ∨
+      ((B y).ok = true ∧ PI (fcore (B y).s) ((B y).cleanup ++ cl) ∧
+        ∀ f, some f ∈ (B y).cleanup → f < y.nfile) ∨
+      ((B y).ok = false ∧ PI (fcore (B y).s) (c.file :: cl))) :
+    BI (x1.transact B c.file).1 := by
+  obtain ⟨hP1, hfile⟩ := fstore_PI hst hP
+  obtain ⟨e1, -, e3, e4, -, e6, e7⟩ := store_fields hst
+  have hd1 : 0 < x1.depth := by rw [e1]; exact hd
+  obtain ⟨g1, g2, g3⟩ := reg_fields x1 c.file
+  have hS0 : Sub cl (reg x1 c.file) :=
+    hS.grow (g1.trans e3) (fun f hf => g3 f (e4 ▸ hf)) (by rw [g2]; exact e6)
+  have hS1 : Sub (c.file :: cl) (reg x1 c.file) := (hS.grow e3 (fun f hf => e4 ▸ hf) e6).reg c.file
+  have hSd : Sub (dropFile cl c.file) (reg x1 c.file) :=
+    hS.dropGrow (g1.trans e3) (fun f hf => g3 f (e4 ▸ hf)) (by rw [g2]; exact e6) c.file e7
+  have hPr : PI (fcore (reg x1 c.file)) (c.file :: cl) := by rw [fcore_reg]; exact hP1
+  have hfile' : ∀ g, c.file = some g → ∃ ct, (g, ct) ∈ (reg x1 c.file).files ∧ ct.size = c.size := by
+    intro g hg
+    have : (reg x1 c.file).files = x1.files := by cases c.file <;> rfl
+    rw [this]; exact hfile g hg
+  apply transact_BI _ hd1
+  · exact hq _
+  · rcases hb (reg x1 c.file) hPr hfile' with ⟨h1, h2, h3⟩ | ⟨h1, h2, h3⟩ | ⟨h1, h2⟩
+    · exact .inl ⟨h1, _, h2, hSd, h3⟩
+    · exact .inl ⟨h1, _, h2, hS0, h3⟩
+    · exact .inr ⟨h1, _, h2, hS1⟩
+
+theorem fresh_transact_grow {x x1 : Cache} {E : Externals} {v : PyVal} {read : Bool} {c : Cols}
+    (hd : 0 < x.depth) (hst : x.store E v read = .ok (x1, c)) (B : Cache → Body)
+    (hq : ∀ y, Q4 y (B y).s) : Grow x (x1.transact B c.file).1 := by
+  obtain ⟨e1, -, -, e4, e5, -, -⟩ := store_fields hst
+  have hd1 : 0 < x1.depth := by rw [e1]; exact hd
+  have hg := transact_grow x1 hd1 B c.file (hq _)
+  have h1 : Grow x (reg x1 c.file) := by
+    constructor
+    · intro p hp
+      have hp' : p ∈ x1.files := by cases hc : c.file <;> (rw [hc] at hp; exact hp)
+      rcases e5 p hp' with h | h
+      · exact .inl h
+      · right; rw [h]; simp [reg]
+    · intro f hf
+      rw [← e4] at hf
+      cases hc : c.file with
+      | none => exact hf
+      | some g => exact List.mem_append_left _ hf
+  exact h1.trans hg
+
+theorem addBody_q4 (dbk : SqlVal) (raw : Bool) (now : Int) (c : Cols) (y : Cache) :
+    Q4 y (rf_addBody dbk raw now c y).s := by
+  have h0 := Q4.refl y
+  unfold rf_addBody
+  split
+  · q4_auto
+  · simp only
+    q4_auto
+
+theorem addBody_fPI (dbk : SqlVal) (raw : Bool) (now : Int) (c : Cols) (y : Cache) (cl : List (Option Nat))
+    (hP : PI (fcore y) (c.file :: cl))
+    (hfile : ∀ g, c.file = some g → ∃ ct, (g, ct) ∈ y.files ∧ ct.size = c.size) :
+    ((rf_addBody dbk raw now c y).ok = true ∧
+      PI (fcore (rf_addBody dbk raw now c y).s) ((rf_addBody dbk raw now c y).cleanup ++ dropFile cl c.file) ∧
+      ∀ f, some f ∈ (rf_addBody dbk raw now c y).cleanup → f < y.nfile) ∨
+    ((rf_addBody dbk raw now c y).ok = true ∧
+      PI (fcore (rf_addBody dbk raw now c y).s) ((rf_addBody dbk raw now c y).cleanup ++ cl) ∧
+      ∀ f, some f ∈ (rf_addBody dbk raw now c y).cleanup → f < y.nfile) ∨
+    ((rf_addBody dbk raw now c y).ok = false ∧ PI (fcore (rf_addBody dbk raw now c y).s) (c.file :: cl)) := by
+  unfold rf_addBody
+  split
+  · right; right; exact ⟨rfl, by fcore_simp; exact hP⟩
+  simp only
+  split
+  · rename_i r hr
+    split
+    · -- the key is live: the new file goes to cleanup
+      right; left
+      refine ⟨rfl, by fcore_simp; exact hP, ?_⟩
+      intro f hf
+      have hf : c.file = some f := (List.mem_singleton.1 hf).symm
+      obtain ⟨ct, h1, -⟩ := hfile f hf
+      exact hP.fresh (c := fcore y) _ h1
+    split
+    · right; right; exact ⟨rfl, by fcore_simp; exact hP⟩
+    left
+    simp only
+    have h1 := fPI_updRow (s := y.logSql "selKey") (cl := c.file :: cl) (cl2 := r.file :: dropFile cl c.file)
+      (by fcore_simp; exact hP) r (selKey_mem hr) now c
+      (by intro g hg; exact ⟨by simp [hg], hfile g hg⟩)
+      (by intro f; simp [mem_dropFile]; grind)
+    have h2 := fcullW_PI _ now _ h1
+    refine ⟨trivial, h2.cl_congr (by intro f; simp; grind), ?_⟩
+    intro f hf
+    rcases List.mem_append.1 hf with hf | hf
+    · have hf : r.file = some f := (List.mem_singleton.1 hf).symm
+      exact hP.ref_lt (c := fcore y) (selKey_mem hr) hf
+    · exact fcullW_lt _ now h1 f hf
+  · split
+    · right; right; exact ⟨rfl, by fcore_simp; exact hP⟩
+    left
+    simp only
+    have h1 := fPI_insRow (s := y.logSql "selKey") (cl := c.file :: cl) (cl2 := dropFile cl c.file)
+      (by fcore_simp; exact hP) dbk raw now c
+      (by intro g hg; exact ⟨by simp [hg], hfile g hg⟩)
+      (by intro f; simp [mem_dropFile]; grind)
+    have h2 := fcullW_PI _ now _ h1
+    refine ⟨trivial, h2.cl_congr (by intro f; simp; grind), ?_⟩
+    intro f hf
+    exact fcullW_lt _ now h1 f (by simpa using hf)
+
+theorem add_BI {x : Cache} (hd : 0 < x.depth) (h : BI x) (E : Externals) (now : Int) (k v : PyVal)
+    (ttl : Option Int) (read : Bool) (tag : SqlVal) : BI (x.add E now k v ttl read tag).1 := by
+  obtain ⟨cl, hP, hS⟩ := h
+  rw [rf_add_eq]
+  cases hst : x.store E v read with
+  | error e => exact ⟨cl, hP, hS⟩
+  | ok p =>
+    obtain ⟨x1, c⟩ := p
+    simp only
+    exact fresh_transact_BI hd hP hS hst _ (addBody_q4 _ _ _ _)
+      (fun y h1 h2 => addBody_fPI _ _ now { c with expT := ttl.map (now + ·), tag := tag } y cl h1 h2)
+
+theorem add_grow {x : Cache} (hd : 0 < x.depth) (E : Externals) (now : Int) (k v : PyVal)
+    (ttl : Option Int) (read : Bool) (tag : SqlVal) : Grow x (x.add E now k v ttl read tag).1 := by
+  rw [rf_add_eq]
+  cases hst : x.store E v read with
+  | error e => exact Grow.refl x
+  | ok p =>
+    obtain ⟨x1, c⟩ := p
+    simp only
+    exact fresh_transact_grow hd hst _ (addBody_q4 _ _ _ _)
+
+theorem pushBody_q4 (now : Int) (p : Option Str) (back : Bool) (c : Cols) (y : Cache) :
+    Q4 y (pushBody now p back c y).s := by
+  have h0 := Q4.refl y
+  rcases pushBody_cases now p back c y with ⟨-, -⟩ | ⟨num, -, -, e⟩
+  · unfold pushBody
+    split
+    · q4_auto
+    · simp only
+      q4_auto
+  · rw [e]
+    q4_auto
+
+theorem pushBody_fPI (now : Int) (p : Option Str) (back : Bool) (c : Cols) (y : Cache) (cl : List (Option Nat))
+    (hP : PI (fcore y) (c.file :: cl))
+    (hfile : ∀ g, c.file = some g → ∃ ct, (g, ct) ∈ y.files ∧ ct.size = c.size) :
+    ((pushBody now p back c y).ok = true ∧
+      PI (fcore (pushBody now p back c y).s) ((pushBody now p back c y).cleanup ++ dropFile cl c.file) ∧
+      ∀ f, some f ∈ (pushBody now p back c y).cleanup → f < y.nfile) ∨
+    ((pushBody now p back c y).ok = true ∧
+      PI (fcore (pushBody now p back c y).s) ((pushBody now p back c y).cleanup ++ cl) ∧
+      ∀ f, some f ∈ (pushBody now p back c y).cleanup → f < y.nfile) ∨
+    ((pushBody now p back c y).ok = false ∧ PI (fcore (pushBody now p back c y).s) (c.file :: cl)) := by
+  by_cases hok : (pushBody now p back c y).ok = true
+  · rcases pushBody_cases now p back c y with ⟨h1, -⟩ | ⟨num, -, -, e⟩
+    · rw [h1] at hok; cases hok
+    · left
+      rw [e]
+      have h1 := fPI_insRow (s := y.logSql "selQueueEnd") (cl := c.file :: cl) (cl2 := dropFile cl c.file)
+        (by fcore_simp; exact hP) (queueKey p num) true now c
+        (by intro g hg; exact ⟨by simp [hg], hfile g hg⟩)
+        (by intro f; simp [mem_dropFile]; grind)
+      have h2 := fcullW_PI _ now _ h1
+      refine ⟨rfl, h2.cl_congr (by intro f; simp [or_comm]), ?_⟩
+      intro f hf
+      exact fcullW_lt _ now h1 f hf
+  · right; right
+    have hok' : (pushBody now p back c y).ok = false := by simpa using hok
+    refine ⟨hok', ?_⟩
+    have hc : fcore (pushBody now p back c y).s = fcore y := by
+      rcases pushBody_cases now p back c y with ⟨-, -⟩ | ⟨num, -, -, e⟩
+      · unfold pushBody
+        split
+        · rfl
+        · simp only
+          split
+          · rfl
+          · split
+            · rfl
+            · rename_i _ num hnum h1 h2
+              exfalso
+              have hsel : y.selKey (queueKey p num) true = none := by
+                cases h : y.selKey (queueKey p num) true with
+                | none => rfl
+                | some r => exact absurd (by show (y.selKey (queueKey p num) true).isSome = true; rw [h]; rfl) h1
+              have hb : c.bindable = true ∧ bindable (queueKey p num) = true := by
+                cases h3 : c.bindable <;> cases h4 : bindable (queueKey p num) <;> simp_all
+              have e := pushBody_some (now := now) (c := c) hnum hsel hb.1 hb.2
+              rw [e] at hok'
+              cases hok'
+      · rw [e] at hok'; cases hok'
+    rw [hc]; exact hP
+
+theorem push_BI {x : Cache} (hd : 0 < x.depth) (h : BI x) (E : Externals) (now : Int) (v : PyVal)
+    (pfx : Option Str) (back : Bool) (ttl : Option Int) (read : Bool) (tag : SqlVal) :
+    BI (x.push E now v pfx back ttl read tag).1 := by
+  obtain ⟨cl, hP, hS⟩ := h
+  rw [push_eq]
+  cases hst : x.store E v read with
+  | error e => exact ⟨cl, hP, hS⟩
+  | ok p =>
+    obtain ⟨x1, c⟩ := p
+    simp only
+    exact fresh_transact_BI hd hP hS hst _ (pushBody_q4 _ _ _ _)
+      (fun y h1 h2 => pushBody_fPI now pfx back { c with expT := ttl.map (now + ·), tag := tag } y cl h1 h2)
+
+theorem push_grow {x : Cache} (hd : 0 < x.depth) (E : Externals) (now : Int) (v : PyVal)
+    (pfx : Option Str) (back : Bool) (ttl : Option Int) (read : Bool) (tag : SqlVal) :
+    Grow x (x.push E now v pfx back ttl read tag).1 := by
+  rw [push_eq]
+  cases hst : x.store E v read with
+  | error e => exact Grow.refl x
+  | ok p =>
+    obtain ⟨x1, c⟩ := p
+    simp only
+    exact fresh_transact_grow hd hst _ (pushBody_q4 _ _ _ _)
+
+/-! ### `pull`, `peek`, `peekitem`: loops of small transactions -/
+
+/-- what the loops carry: still inside the block, invariant, and every new file registered -/
+structure BG (a x : Cache) : Prop where
+  pos : 0 < x.depth
+  bi : BI x
+  grow : Grow a x
+
+theorem BG.tlog {a x : Cache} (h : BG a x) (sel : String) :
+    BG a (x.transact fun s => { s := s.logSql sel, out := .none }).1 := by
+  have hq : Q4 x ((fun s : Cache => ({ s := s.logSql sel, out := Out.none } : Body)) x).s := (Q4.refl x).logSql sel
+  obtain ⟨q1, -⟩ := transact_inblock_q4 x h.pos (fun s => { s := s.logSql sel, out := Out.none }) none hq
+  obtain ⟨cl, hP, hS⟩ := h.bi
+  refine ⟨by rw [q1]; exact h.pos, ?_, h.grow.trans (transact_grow x h.pos _ none hq)⟩
+  apply transact_BI' _ h.pos
+  · exact hq
+  · left; exact ⟨rfl, cl, by fcore_simp; simpa using hP, hS, by nobound⟩
+
+theorem BG.tfail {a x : Cache} (h : BG a x) (sel : String) (o : Out) :
+    BG a (x.transact fun s => { s := s.logSql sel, out := o, ok := false }).1 := by
+  have hq : Q4 x ((fun s : Cache => ({ s := s.logSql sel, out := o, ok := false } : Body)) x).s :=
+    (Q4.refl x).logSql sel
+  obtain ⟨q1, -⟩ := transact_inblock_q4 x h.pos (fun s => { s := s.logSql sel, out := o, ok := false }) none hq
+  obtain ⟨cl, hP, hS⟩ := h.bi
+  refine ⟨by rw [q1]; exact h.pos, ?_, h.grow.trans (transact_grow x h.pos _ none hq)⟩
+  apply transact_BI' _ h.pos
+  · exact hq
+  · right; exact ⟨rfl, cl, by fcore_simp; simpa using hP, hS⟩
+
+theorem BG.tdelc {a x : Cache} (h : BG a x) (sel : String) (r : Row) (hr : r ∈ x.rows) :
+    BG a (x.transact fun s => { s := (s.logSql sel).delRow r.rowid, out := .none, cleanup := [r.file] }).1 := by
+  have hq : Q4 x ((fun s : Cache => ({ s := (s.logSql sel).delRow r.rowid, out := Out.none, cleanup := [r.file] } : Body)) x).s :=
+    ((Q4.refl x).logSql sel).delRow r.rowid
+  obtain ⟨q1, -⟩ := transact_inblock_q4 x h.pos
+    (fun s => { s := (s.logSql sel).delRow r.rowid, out := Out.none, cleanup := [r.file] }) none hq
+  obtain ⟨cl, hP, hS⟩ := h.bi
+  refine ⟨by rw [q1]; exact h.pos, ?_, h.grow.trans (transact_grow x h.pos _ none hq)⟩
+  apply transact_BI' _ h.pos
+  · exact hq
+  · left
+    refine ⟨rfl, cl, ?_, hS, ?_⟩
+    · have := fPI_delRow (s := x.logSql sel) (cl := cl) (by fcore_simp; exact hP) r hr
+      exact this.cl_congr (by intro f; simp [or_comm])
+    · intro f hf
+      have hf : r.file = some f := by
+        have : some f ∈ [r.file] := hf
+        exact (List.mem_singleton.1 this).symm
+      exact hP.ref_lt (c := fcore x) hr hf
+
+theorem BG.fetch {a x : Cache} (h : BG a x) (E : Externals) (r : Row) (read : Bool) :
+    BG a (x.fetchRow E r read).1 := by
+  have hq := (Q4.refl x).fetchRow E r read
+  exact ⟨by rw [hq.depth]; exact h.pos, h.bi.of_core (core_fetchRow x E r read),
+    h.grow.trans (Grow.of_eq hq.files hq.created)⟩
+
+/-- the tail of `pull` (and of `pop`): delete the row, read its file, defer the removal -/
+theorem BG.tpop {a x : Cache} (h : BG a x) (sel : String) (E : Externals) (r : Row) (hr : r ∈ x.rows) :
+    BG a (((x.transact fun s => { s := (s.logSql sel).delRow r.rowid, out := .none }).1.fetchRow E r false).1.removeCommitted
+      r.file) := by
+  have hd := h.pos
+  obtain ⟨cl, hP, hS⟩ := h.bi
+  have hq : Q4 x ((fun s : Cache => ({ s := (s.logSql sel).delRow r.rowid, out := Out.none } : Body)) x).s :=
+    ((Q4.refl x).logSql sel).delRow r.rowid
+  have hf := transact_inblock_fcore x hd (fun s => { s := (s.logSql sel).delRow r.rowid, out := Out.none }) none
+  have hg := transact_grow x hd (fun s => { s := (s.logSql sel).delRow r.rowid, out := Out.none }) none hq
+  obtain ⟨q1, q2, q3, q4, -, q6⟩ := transact_inblock_q4 x hd
+    (fun s => { s := (s.logSql sel).delRow r.rowid, out := Out.none }) none hq
+  generalize (x.transact fun s => { s := (s.logSql sel).delRow r.rowid, out := Out.none }).1 = t at *
+  have hPt : PI (fcore t) (cl ++ [r.file]) := by
+    rw [hf]
+    exact fPI_delRow (s := x.logSql sel) (cl := cl) (by fcore_simp; exact hP) r hr
+  have hSt : Sub cl t := hS.of_eq (by rw [q4]; simp) q3 q6
+  have hdt : 0 < t.depth := by rw [q1]; exact hd
+  have hfq := (Q4.refl t).fetchRow E r false
+  have hg' : Grow x t := hg
+  refine ⟨?_, ?_, ?_⟩
+  · have hd' : 0 < (t.fetchRow E r false).1.depth := by rw [hfq.depth]; exact hdt
+    have : ((t.fetchRow E r false).1.removeCommitted r.file).depth = (t.fetchRow E r false).1.depth := by
+      unfold removeCommitted
+      cases r.file with
+      | none => rfl
+      | some f => simp only [gt_iff_lt, hd', if_true]
+    rw [this]; exact hd'
+  · apply removeCommitted_BI (cl := cl)
+    · rw [hfq.depth]; exact hdt
+    · fcore_simp; exact hPt
+    · exact hSt.q4 hfq
+    · intro g hg
+      rw [hfq.nfile, q6]
+      exact hP.ref_lt (c := fcore x) hr hg
+  · exact ((h.grow.trans hg').trans (Grow.of_eq hfq.files hfq.created)).trans
+      (removeCommitted_grow _ _ (by rw [hfq.depth]; exact hdt))
+
+theorem pullLoop_BG (E : Externals) (now : Int) (pfx : Option Str) (front et tg : Bool) {a : Cache} :
+    ∀ (fuel : Nat) (s : Cache), BG a s → BG a (pullLoop E now pfx front et tg fuel s).1 := by
+  intro fuel
+  induction fuel with
+  | zero => intro s h; exact h
+  | succ k ih =>
+    intro s h
+    unfold pullLoop
+    simp only
+    split
+    · exact h.tlog _
+    · rename_i r hr
+      have hmem := queueHead_mem hr
+      split
+      · exact ih _ (h.tdelc _ r hmem)
+      · have h2 := h.tpop "selQueueHead" E r hmem
+        split
+        · exact ih _ h2
+        · exact h2
+
+theorem peekLoop_BG (E : Externals) (now : Int) (pfx : Option Str) (front et tg : Bool) {a : Cache} :
+    ∀ (fuel : Nat) (s : Cache), BG a s → BG a (peekLoop E now pfx front et tg fuel s).1 := by
+  intro fuel
+  induction fuel with
+  | zero => intro s h; exact h
+  | succ k ih =>
+    intro s h
+    unfold peekLoop
+    simp only
+    split
+    · exact h.tlog _
+    · rename_i r hr
+      have hmem := queueHead_mem hr
+      split
+      · exact ih _ (h.tdelc _ r hmem)
+      · have h2 := (h.tlog "selQueueHead").fetch E r false
+        split
+        · exact ih _ h2
+        · exact h2
+
+theorem peekitemLoop_BG (E : Externals) (now : Int) (last et tg : Bool) {a : Cache} :
+    ∀ (fuel : Nat) (s : Cache), BG a s → BG a (peekitemLoop E now last et tg fuel s).1 := by
+  intro fuel
+  induction fuel with
+  | zero => intro s h; exact h
+  | succ k ih =>
+    intro s h
+    unfold peekitemLoop
+    simp only
+    split
+    · exact h.tfail _ _
+    · rename_i r hr
+      have hmem : r ∈ s.rows := by
+        split at hr
+        · exact lastRow?_mem hr
+        · exact List.mem_of_head? hr
+      split
+      · exact ih _ (h.tdelc _ r hmem)
+      · have h2 := (h.tlog "selEdge").fetch E r false
+        split
+        · exact ih _ h2
+        · exact h2
+
+theorem BG.start {x : Cache} (hd : 0 < x.depth) (h : BI x) : BG x x := ⟨hd, h, Grow.refl x⟩
+
+theorem pull_BG {x : Cache} (hd : 0 < x.depth) (h : BI x) (E : Externals) (now : Int) (pfx : Option Str)
+    (front et tg : Bool) : BG x (x.pull E now pfx front et tg).1 :=
+  pullLoop_BG E now pfx front et tg _ x (BG.start hd h)
+
+theorem peek_BG {x : Cache} (hd : 0 < x.depth) (h : BI x) (E : Externals) (now : Int) (pfx : Option Str)
+    (front et tg : Bool) : BG x (x.peek E now pfx front et tg).1 :=
+  peekLoop_BG E now pfx front et tg _ x (BG.start hd h)
+
+theorem peekitem_BG {x : Cache} (hd : 0 < x.depth) (h : BI x) (E : Externals) (now : Int)
+    (last et tg : Bool) : BG x (x.peekitem E now last et tg).1 :=
+  peekitemLoop_BG E now last et tg _ x (BG.start hd h)
+
+/-! the registration half alone (no invariant needed) -/
+
+structure GG (a x : Cache) : Prop where
+  pos : 0 < x.depth
+  grow : Grow a x
+
+theorem GG.tq {a x : Cache} (h : GG a x) (body : Cache → Body) (hq : Q4 x (body x).s) :
+    GG a (x.transact body).1 := by
+  obtain ⟨q1, -⟩ := transact_inblock_q4 x h.pos body none hq
+  exact ⟨by rw [q1]; exact h.pos, h.grow.trans (transact_grow x h.pos body none hq)⟩
+
+theorem GG.fetch {a x : Cache} (h : GG a x) (E : Externals) (r : Row) (read : Bool) :
+    GG a (x.fetchRow E r read).1 := by
+  have hq := (Q4.refl x).fetchRow E r read
+  exact ⟨by rw [hq.depth]; exact h.pos, h.grow.trans (Grow.of_eq hq.files hq.created)⟩
+
+theorem GG.rc {a x : Cache} (h : GG a x) (f : Option Nat) : GG a (x.removeCommitted f) := by
+  refine ⟨?_, h.grow.trans (removeCommitted_grow _ _ h.pos)⟩
+  have hd := h.pos
+  unfold removeCommitted
+  cases f with
+  | none => exact hd
+  | some f => simp only [gt_iff_lt, hd, if_true]
+
+theorem pullLoop_GG (E : Externals) (now : Int) (pfx : Option Str) (front et tg : Bool) {a : Cache} :
+    ∀ (fuel : Nat) (s : Cache), GG a s → GG a (pullLoop E now pfx front et tg fuel s).1 := by
+  intro fuel
+  induction fuel with
+  | zero => intro s h; exact h
+  | succ k ih =>
+    intro s h
+    unfold pullLoop
+    simp only
+    split
+    · exact h.tq _ ((Q4.refl s).logSql _)
+    · rename_i r hr
+      split
+      · exact ih _ (h.tq _ (((Q4.refl s).logSql _).delRow _))
+      · have h2 := ((h.tq (fun s => { s := (s.logSql "selQueueHead").delRow r.rowid, out := Out.none })
+          (((Q4.refl s).logSql _).delRow _)).fetch E r false).rc r.file
+        split
+        · exact ih _ h2
+        · exact h2
+
+theorem peekLoop_GG (E : Externals) (now : Int) (pfx : Option Str) (front et tg : Bool) {a : Cache} :
+    ∀ (fuel : Nat) (s : Cache), GG a s → GG a (peekLoop E now pfx front et tg fuel s).1 := by
+  intro fuel
+  induction fuel with
+  | zero => intro s h; exact h
+  | succ k ih =>
+    intro s h
+    unfold peekLoop
+    simp only
+    split
+    · exact h.tq _ ((Q4.refl s).logSql _)
+    · rename_i r hr
+      split
+      · exact ih _ (h.tq _ (((Q4.refl s).logSql _).delRow _))
+      · have h2 := (h.tq (fun s => { s := s.logSql "selQueueHead", out := Out.none })
+          ((Q4.refl s).logSql _)).fetch E r false
+        split
+        · exact ih _ h2
+        · exact h2
+
+theorem peekitemLoop_GG (E : Externals) (now : Int) (last et tg : Bool) {a : Cache} :
+    ∀ (fuel : Nat) (s : Cache), GG a s → GG a (peekitemLoop E now last et tg fuel s).1 := by
+  intro fuel
+  induction fuel with
+  | zero => intro s h; exact h
+  | succ k ih =>
+    intro s h
+    unfold peekitemLoop
+    simp only
+    split
+    · exact h.tq _ ((Q4.refl s).logSql _)
+    · rename_i r hr
+      split
+      · exact ih _ (h.tq _ (((Q4.refl s).logSql _).delRow _))
+      · have h2 := (h.tq (fun s => { s := s.logSql "selEdge", out := Out.none })
+          ((Q4.refl s).logSql _)).fetch E r false
+        split
+        · exact ih _ h2
+        · exact h2
+
+theorem pull_grow {x : Cache} (hd : 0 < x.depth) (E : Externals) (now : Int) (pfx : Option Str)
+    (front et tg : Bool) : Grow x (x.pull E now pfx front et tg).1 :=
+  (pullLoop_GG E now pfx front et tg _ x ⟨hd, Grow.refl x⟩).grow
+
+theorem peek_grow {x : Cache} (hd : 0 < x.depth) (E : Externals) (now : Int) (pfx : Option Str)
+    (front et tg : Bool) : Grow x (x.peek E now pfx front et tg).1 :=
+  (peekLoop_GG E now pfx front et tg _ x ⟨hd, Grow.refl x⟩).grow
+
+theorem peekitem_grow {x : Cache} (hd : 0 < x.depth) (E : Externals) (now : Int)
+    (last et tg : Bool) : Grow x (x.peekitem E now last et tg).1 :=
+  (peekitemLoop_GG E now last et tg _ x ⟨hd, Grow.refl x⟩).grow
 
 end DC.Cache
